@@ -10,9 +10,9 @@ import (
 
 // String pools: token 0 is the empty string and byte-wise order = token order (checked by init).
 var (
-	TripIDs   = []string{"", "10_t", "9_t", "T3", "t4", "t4x"}
-	RouteIDs  = []string{"", "M", "R1", "r2", "r3"}
-	StopIDs   = []string{"", "L11N", "M11", "M11N", "M11NN", "M11S", "M11X", "M12N", "M12S", "M13N", "M13S", "M14N", "M14S", "M16N", "M16S", "M18N", "M18S", "M19N", "M19S", "S1", "s2", "s3",
+	TripIDs  = []string{"", "10_t", "9_t", "T3", "t4", "t4x", "t5", "t6", "t7", "t8", "t9"}
+	RouteIDs = []string{"", "M", "R1", "r2", "r3"}
+	StopIDs  = []string{"", "L11N", "M11", "M11N", "M11NN", "M11S", "M11X", "M12N", "M12S", "M13N", "M13S", "M14N", "M14S", "M16N", "M16S", "M18N", "M18S", "M19N", "M19S", "S1", "s2", "s3",
 		// elevator stations (tokens 22, 25, 28) with their N (+1) and S (+2) platforms, see spec/NyctAlerts.tla
 		"t27", "t27N", "t27S", "u01", "u01N", "u01S", "v25", "v25N", "v25S"}
 	// vehicle ids; the NYCT train ids are vehicle ids too (an assigned trip is linked to the vehicle named by its train id)
